@@ -107,6 +107,7 @@ int main (void)
       case 'i': { size_t n; unsigned char *c = hc_unhex_tight (arg, &n); P ("=%d", (int) pseudo_tcp_socket_notify_packet (S[w], (char *) c, n)); break; }
       case 'N': if (npend) { size_t i = take_pending (0); w = 1 - pkts[i].from; P ("%zu=%d", i, deliver (i)); } else { w = -1; P ("=x"); } break;
       case 'X': if (npend) { size_t i = take_pending (0); P ("%zu", i); } else P ("=x"); w = -1; break;
+      case 'Z': { /* total outage: every pending packet is lost */ unsigned k = 0; while (npend) { take_pending (0); k++; } P ("%u", k); w = -1; break; }
       case 'D': { size_t k = strtoul (op + 1, NULL, 10); if (npend) { size_t i = take_pending (k % npend); w = 1 - pkts[i].from; P ("%zu=%d", i, deliver (i)); } else { w = -1; P ("=x"); } break; }
       case 'U': { size_t k = strtoul (op + 1, NULL, 10); if (nhist) { size_t i = hist[nhist - 1 - (k % nhist)]; w = 1 - pkts[i].from; P ("%zu=%d", i, deliver (i)); } else { w = -1; P ("=x"); } break; }
       case 'Q': { unsigned n = strtoul (op + 1, NULL, 10); w = -1;
